@@ -14,6 +14,17 @@ LEDGER_NOTE = ("Trusted: TLC, JSON bridge, the harness's read-only projection th
                "methods are not generated yet.")
 
 CHECKS = {
+    "C18": (
+        "Attest.tla (regions Orig/Mut, time boundary points, policies, collateral choice; Verify transcribing the order of checks) "
+        "checked by TLC against the declarative acceptance rule; emitted cases concretised as bit/byte mutations of the real SGX/TDX "
+        "vectors and replayed on QuoteBundle.Verify; outcomes validated by TLC (TraceAttest.tla, rule only)",
+        "Exhaustive TLC check of the decision-table model (all region subsets <= 2 x time points x policies x collateral choices); "
+        "every abstract case is executed on the repository's known-good quotes and collateral (quick: a few bytes per region; "
+        "thorough: every single bit plus field-aware patterns); a violation is an acceptance the rule forbids or a mutant accepted "
+        "with different identity / report data.",
+        "Trusted: TLC, JSON bridge, Intel's signatures on the vectors. No freshly signed quotes can be produced: soundness is "
+        "explored through mutations of the known-good vectors only. One open known finding (FMSPC blacklist letter case).",
+        "DESIGN.md 4 C18"),
     "C05": (
         "Ledger.tla rule (conservation, share sums, supply monotone) evaluated by TLC (TraceLedger.tla) on states recorded "
         "after BeginBlock, every DeliverTx and EndBlock of seeded scenarios on real multiplexers; LedgerModel.tla design run",
